@@ -1,10 +1,16 @@
 package httpserver
 
 // Correspondence harness for property C12 (route cache transparency).
-// Injected with `go test -overlay`. Two mux instances are built from the same
-// generated spec (cacheSize 0 and cacheSize n) and fed the same request
-// sequence through mux.ServeHTTP; for every request the status, the invoked
+// Injected with `go test -overlay`. Two mux objects are built from the same
+// generated spec (cacheSize 0 and cacheSize n) and fed the same history
+// through mux.ServeHTTP; for every request the status, the invoked
 // backend and the path the handler saw are recorded for both instances.
+// A history element with a "reload" member is an in-place update: mux.reload
+// with that spec on the SAME mux objects, exactly as runtime.reload does it
+// (the cache-less twin always with cacheSize 0). Reload specs differ from the
+// current one in the ipFilter at server / rule / path level, in the rules, in
+// cacheSize, or not at all; requests after a reload keep drawing from the same
+// pool, so keys cached by an earlier generation are requested again.
 // Everything the Lean model treats as an oracle (regexp answers, IP filter
 // verdicts, SplitHostPort) is evaluated here with the standard library / the
 // ipfilter package and shipped as data.
@@ -68,6 +74,15 @@ type c12Req struct {
 	Path   string      `json:"path"`
 	Hdr    [][2]string `json:"hdr"`
 	IP     string      `json:"ip"`
+	// Reload != nil: this history element is not a request but mux.reload with that spec.
+	Reload *c12Spec `json:"reload,omitempty"`
+}
+
+// c12Spec is what a reload installs (the first generation is the top level of c12Input).
+type c12Spec struct {
+	CacheSize int        `json:"cacheSize"` // 0: this generation of the cached twin has no cache
+	Filter    *c12Filter `json:"filter"`
+	Rules     []c12Rule  `json:"rules"`
 }
 
 type c12Input struct {
@@ -85,12 +100,13 @@ type c12Res struct {
 }
 
 type c12Obs struct {
-	Uncached   []c12Res    `json:"uncached"`
-	Cached     []c12Res    `json:"cached"`
+	Uncached []c12Res `json:"uncached"`
+	Cached   []c12Res `json:"cached"`
+	// all per-request lists are indexed by request number (reload elements are skipped)
 	Hit        []bool      `json:"hit"`        // getRouteFromCache(req) != nil probed right before the request
 	HostNoPort []string    `json:"hostNoPort"` // per request
 	Re         [][3]string `json:"re"`         // [pattern, string, "1"/"0"] for every pattern x string at hand
-	Allow      [][]bool    `json:"allow"`      // [filter occurrence in traversal order][request] = Allow(ip)
+	Allow      [][]bool    `json:"allow"`      // [filter occurrence in traversal order, spec after spec][request] = Allow(ip)
 }
 
 // ---------------------------------------------------------------- generator
@@ -287,7 +303,122 @@ func c12Gen(r0 *verifh.Rand, i int) interface{} {
 		}
 		in.Reqs = append(in.Reqs, q)
 	}
+	// in-place reloads (about half of the cases): 1-3 of them, not before the first request
+	if r.Bool(1, 2) {
+		cur := c12Spec{CacheSize: in.CacheSize, Filter: in.Filter, Rules: in.Rules}
+		nrel := r.PickInt(1, 1, 2, 3)
+		pos := make([]int, nrel)
+		for k := range pos {
+			if len(in.Reqs) <= 2 {
+				pos[k] = r.Range(1, len(in.Reqs))
+			} else {
+				pos[k] = r.Range(len(in.Reqs)/5, len(in.Reqs)*4/5)
+			}
+		}
+		sort.Ints(pos)
+		var out []c12Req
+		k := 0
+		for i, q := range in.Reqs {
+			for k < nrel && pos[k] == i {
+				cur = c12MutateSpec(r, cur, &nb)
+				cp := c12CopySpec(cur)
+				out = append(out, c12Req{Reload: &cp})
+				k++
+			}
+			out = append(out, q)
+		}
+		in.Reqs = out
+	}
 	return in
+}
+
+func c12CopySpec(s c12Spec) c12Spec {
+	var out c12Spec
+	b, _ := json.Marshal(s)
+	_ = json.Unmarshal(b, &out)
+	return out
+}
+
+// c12MutateSpec derives the spec of the next generation from the current one.
+func c12MutateSpec(r *verifh.Rand, cur c12Spec, nb *int) c12Spec {
+	s := c12CopySpec(cur)
+	flip := func(f **c12Filter) { // add / remove / replace a filter
+		switch {
+		case *f == nil:
+			*f = c12GenFilter(r)
+		case r.Bool(1, 2):
+			*f = nil
+		default:
+			*f = c12GenFilter(r)
+		}
+	}
+	switch r.Intn(12) {
+	case 0, 1, 2, 3: // server-level filter only: rules and cacheSize identical
+		flip(&s.Filter)
+	case 4: // a rule-level filter
+		if len(s.Rules) > 0 {
+			flip(&s.Rules[r.Intn(len(s.Rules))].Filter)
+		} else {
+			flip(&s.Filter)
+		}
+	case 5: // a path-level filter
+		var ps []*c12Path
+		for i := range s.Rules {
+			for j := range s.Rules[i].Paths {
+				ps = append(ps, &s.Rules[i].Paths[j])
+			}
+		}
+		if len(ps) > 0 {
+			flip(&ps[r.Intn(len(ps))].Filter)
+		} else {
+			flip(&s.Filter)
+		}
+	case 6: // rules: drop one / add one / swap two / change a path's backend or methods
+		switch {
+		case len(s.Rules) > 1 && r.Bool(1, 3):
+			k := r.Intn(len(s.Rules))
+			s.Rules = append(s.Rules[:k], s.Rules[k+1:]...)
+		case len(s.Rules) > 1 && r.Bool(1, 2):
+			s.Rules[0], s.Rules[len(s.Rules)-1] = s.Rules[len(s.Rules)-1], s.Rules[0]
+		case r.Bool(1, 2):
+			s.Rules = append([]c12Rule{c12GenRule(r, nb)}, s.Rules...)
+		default:
+			for i := range s.Rules {
+				for j := range s.Rules[i].Paths {
+					if r.Bool(1, 2) {
+						s.Rules[i].Paths[j].Backend = r.Pick(c12Backends...)
+					} else {
+						s.Rules[i].Paths[j].Methods = []string{r.Pick("GET", "POST", "PUT")}
+					}
+				}
+			}
+		}
+	case 7: // cacheSize only (sometimes to "no cache" and back)
+		s.CacheSize = r.PickInt(0, 1, 2, 3, 16)
+		if s.CacheSize == cur.CacheSize {
+			s.CacheSize = cur.CacheSize%3 + 1
+		}
+	case 8: // identical spec (runtime.reload with an unchanged spec)
+	case 9: // filters at several levels at once
+		flip(&s.Filter)
+		for i := range s.Rules {
+			if r.Bool(1, 2) {
+				flip(&s.Rules[i].Filter)
+			}
+		}
+	case 10: // server filter and cacheSize
+		flip(&s.Filter)
+		s.CacheSize = r.PickInt(1, 2, 3, 16)
+	default: // a new spec altogether
+		s = c12Spec{CacheSize: r.PickInt(1, 2, 16)}
+		if r.Bool(1, 3) {
+			s.Filter = c12GenFilter(r)
+		}
+		for k := r.PickInt(1, 2, 3); k > 0; k-- {
+			s.Rules = append(s.Rules, c12GenRule(r, nb))
+		}
+	}
+	return s
 }
 
 // ---------------------------------------------------------------- executor
@@ -299,9 +430,9 @@ func c12FilterSpec(f *c12Filter) *ipfilter.Spec {
 	return &ipfilter.Spec{BlockByDefault: f.BBD, AllowIPs: f.Allow, BlockIPs: f.Block}
 }
 
-func c12BuildMux(in *c12Input, cacheSize int, mm *contexttest.MockedMuxMapper) (*mux, string) {
-	spec := &Spec{KeepAlive: true, Port: 8080, MaxConnections: 1024, KeepAliveTimeout: "60s", CacheSize: uint32(cacheSize), IPFilter: c12FilterSpec(in.Filter)}
-	for _, ru := range in.Rules {
+func c12SuperSpec(sp *c12Spec, cacheSize int) (*supervisor.Spec, string) {
+	spec := &Spec{KeepAlive: true, Port: 8080, MaxConnections: 1024, KeepAliveTimeout: "60s", CacheSize: uint32(cacheSize), IPFilter: c12FilterSpec(sp.Filter)}
+	for _, ru := range sp.Rules {
 		rule := &Rule{Host: ru.Host, HostRegexp: ru.HostRegexp, IPFilter: c12FilterSpec(ru.Filter)}
 		for _, p := range ru.Paths {
 			path := &Path{Path: p.Path, PathPrefix: p.Prefix, PathRegexp: p.Regexp, Methods: p.Methods,
@@ -321,8 +452,25 @@ func c12BuildMux(in *c12Input, cacheSize int, mm *contexttest.MockedMuxMapper) (
 		}
 		return nil, "invalid-spec"
 	}
-	m := newMux(httpstat.New(), httpstat.NewTopN(10), mm)
+	return superSpec, ""
+}
+
+// c12Reload updates the mux in place, the way runtime.reload does: m.reload(nextSuperSpec, muxMapper)
+// on the same mux object; the spec is validated by supervisor.NewSpec first (as an admin update is).
+func c12Reload(m *mux, sp *c12Spec, cacheSize int, mm *contexttest.MockedMuxMapper) string {
+	superSpec, e := c12SuperSpec(sp, cacheSize)
+	if e != "" {
+		return e
+	}
 	m.reload(superSpec, mm)
+	return ""
+}
+
+func c12BuildMux(in *c12Input, cacheSize int, mm *contexttest.MockedMuxMapper) (*mux, string) {
+	m := newMux(httpstat.New(), httpstat.NewTopN(10), mm)
+	if e := c12Reload(m, &c12Spec{Filter: in.Filter, Rules: in.Rules}, cacheSize, mm); e != "" {
+		return nil, e
+	}
 	return m, ""
 }
 
@@ -379,8 +527,25 @@ func c12Exec(raw json.RawMessage) interface{} {
 		return map[string]string{"error": e}
 	}
 	obs := c12Obs{Uncached: []c12Res{}, Cached: []c12Res{}, Hit: []bool{}, HostNoPort: []string{}, Re: [][3]string{}, Allow: [][]bool{}}
+	specs := []*c12Spec{{Filter: in.Filter, Rules: in.Rules}}
+	var reqs []*c12Req // the request elements
 	for i := range in.Reqs {
 		q := &in.Reqs[i]
+		if q.Reload != nil {
+			cs := q.Reload.CacheSize
+			if cs < 0 {
+				cs = 0
+			}
+			if e := c12Reload(mu, q.Reload, 0, mm); e != "" {
+				return map[string]string{"error": e}
+			}
+			if e := c12Reload(mc, q.Reload, cs, mm); e != "" {
+				return map[string]string{"error": e}
+			}
+			specs = append(specs, q.Reload)
+			continue
+		}
+		reqs = append(reqs, q)
 		obs.Uncached = append(obs.Uncached, c12Serve(mu, q, &seen))
 		// ARC's Get is idempotent on the cache state (Get;Get == Get), a miss changes nothing:
 		// probing through the anchored accessor does not disturb the run.
@@ -398,7 +563,7 @@ func c12Exec(raw json.RawMessage) interface{} {
 	}
 	// oracle tables
 	hostStr, pathStr, hdrStr := map[string]bool{}, map[string]bool{}, map[string]bool{"": true}
-	for i, q := range in.Reqs {
+	for i, q := range reqs {
 		hostStr[obs.HostNoPort[i]] = true
 		pathStr[q.Path] = true
 		for _, kv := range q.Hdr {
@@ -431,21 +596,23 @@ func c12Exec(raw json.RawMessage) interface{} {
 			return
 		}
 		flt := ipfilter.New(c12FilterSpec(f))
-		row := make([]bool, len(in.Reqs))
-		for i, q := range in.Reqs {
+		row := make([]bool, len(reqs))
+		for i, q := range reqs {
 			row[i] = flt.Allow(q.IP)
 		}
 		obs.Allow = append(obs.Allow, row)
 	}
-	addFilter(in.Filter)
-	for _, ru := range in.Rules {
-		addRe(ru.HostRegexp, hostStr)
-		addFilter(ru.Filter)
-		for _, p := range ru.Paths {
-			addRe(p.Regexp, pathStr)
-			addFilter(p.Filter)
-			for _, h := range p.Headers {
-				addRe(h.Regexp, hdrStr)
+	for _, sp := range specs {
+		addFilter(sp.Filter)
+		for _, ru := range sp.Rules {
+			addRe(ru.HostRegexp, hostStr)
+			addFilter(ru.Filter)
+			for _, p := range ru.Paths {
+				addRe(p.Regexp, pathStr)
+				addFilter(p.Filter)
+				for _, h := range p.Headers {
+					addRe(h.Regexp, hdrStr)
+				}
 			}
 		}
 	}
